@@ -405,6 +405,49 @@ def c05_nested_seq(a0: int, a1: int, a2: int, w: int, t1x: int, t1y: int, t2x: i
   return fdl.build(_INNER[0]) == sigs.Rec('g5', (v, None), (), (None,), {})
 
 
+
+_DD_KEYS = ['mid', 'a', 'zz']
+_DD_ORDERS = [(0, 1, 2), (0, 2, 1), (1, 0, 2), (1, 2, 0), (2, 0, 1), (2, 1, 0)]
+
+
+def c05_mapping_holder(holder: int, order: int, fail: int) -> bool:
+  """
+  The failing Buildable sits in a mapping container with three keys inserted in one of the six orders (holder 0: dict,
+  1: collections.defaultdict, 2: a defaultdict inside a list): the path named by the error leads to it (C05-m7).
+  require: 0 <= holder <= 2 and 0 <= order <= 5 and 0 <= fail <= 2
+  """
+  import collections
+  def conc(t, hi):
+    for c in range(hi + 1):
+      if t == c:
+        return c
+    return 0
+  holder, order, fail = conc(holder, 2), conc(order, 5), conc(fail, 2)
+  kids = [fdl.Config(H[i], x=3 + i) for i in range(3)]     # concrete leaves: the message prints them
+  items = [(_DD_KEYS[i], kids[i]) for i in _DD_ORDERS[order]]
+  m = dict(items) if holder == 0 else collections.defaultdict(list, items)
+  root = fdl.Config(fam.g1, x=[m] if holder == 2 else m, y=1)
+  FAIL['node'], FAIL['exc'], FAIL['round'] = fail, 0, 0
+  sigs.reset_log()
+  note('c05m', holder, order, fail)
+  try:
+    fdl.build(root)
+  except ValueError as e:
+    text = str(e)
+  else:
+    return False
+  finally:
+    FAIL['node'] = None
+  named = _PATH_RE.findall(text)
+  if not named:
+    return False
+  expect = ('.x[0]' if holder == 2 else '.x') + f'[{_DD_KEYS[fail]!r}]'
+  if named[-1] != expect:
+    return False
+  hits = [obj for p, obj in reach_paths(root) if p == named[-1]]
+  return (not hits or hits[0] is kids[fail]) and text.startswith('bad value')
+
+
 def obligations(tier, seed):
   ws = [0, 1, 3] if tier == 'quick' else [0, 1, 2, 3, 4, 5]
   cubes = []
@@ -426,6 +469,9 @@ def obligations(tier, seed):
                  [Cube(f'a{a0}{a2}_w{w}', [], dict(a0=a0, a2=a2, w=w), est=108) for a0 in range(3) for a2 in range(3)
                   for w in ((1,) if tier == 'quick' else (0, 1, 3, 5))], timeout=t, path_timeout=40,
                  smoke=dict(a0=2, a1=1, a2=2, w=1, t1x=0, t1y=-1, t2x=1, t2y=0, v=3)),
+      Obligation('c05_mapping_holder', c05_mapping_holder, [Cube(f'h{h}_o{o}', [], dict(holder=h, order=o)) for h in range(3) for o in range(6)],
+                 timeout=120, path_timeout=40, smoke=dict(holder=1, order=0, fail=1),
+                 extra_smokes=[dict(holder=2, order=4, fail=0), dict(holder=0, order=5, fail=2)]),
       Obligation('c05_nested', c05_nested, [Cube(f'd{d}', [], dict(depth=d)) for d in range(3)], timeout=120,
                  smoke=dict(depth=1, inner_fails=False, v=3)),
   ]
